@@ -48,8 +48,6 @@ m('blockrow_T_row', ['C03', 'C10'], '_base/blocks.py',
   '        return BlockColumnOperator(self._tree_map(lambda op: op.T))\n\n    def out_structure',
   '        return BlockRowOperator(self._tree_map(lambda op: op.T))\n\n    def out_structure')
 m('toast_T_no_transpose', ['C03'], 'toast/obs_matrix.py', 'return self.operator.matrix.T @ x', 'return self.operator.matrix @ x')
-m('dense_T_swap_first_only', ['C03', 'C14'], '_base/dense.py',
-  "        lefts_as_list[transpose_axis_number] = sum_axis\n", "        pass\n")
 # ---- C15 ------------------------------------------------------------------------------------------
 m('hwp_flips_q', ['C15'], 'operators/hwp.py', 'return StokesIQUPyTree(x.i, x.q, -x.u)', 'return StokesIQUPyTree(x.i, -x.q, x.u)')
 m('qurot_angle_not_doubled', ['C15', 'C16'], 'operators/qu_rotations.py',
@@ -72,3 +70,88 @@ m('toep_default_fft', ['C09'], 'operators/toeplitz.py', 'return int(2 ** (additi
   'return int(2 ** (additional_power + np.floor(np.log2(band_number)) - 1)) if band_number > 8 else int(2 ** (additional_power + np.ceil(np.log2(band_number))))',
   note='only K>=5 (band number 9+) gets an fft size below the band number: needs thorough tier or reject clause')
 m('toep_fft_trim', ['C09'], 'operators/toeplitz.py', 'return Y_padded[half_band_width:-half_band_width]', 'return Y_padded[half_band_width - 1:-half_band_width - 1]')
+
+# ---- C02 ------------------------------------------------------------------------------------------
+m('sub_not_negated_for_sums', ['C02'], '_base/core.py',
+  '        result: AbstractLinearOperator = self + (-other)\n', '        result: AbstractLinearOperator = self + (other if isinstance(other, AdditionOperator) and isinstance(self, CompositionOperator) else -other)\n')
+m('rmatmul_appends_right', ['C02'], '_base/core.py', 'return CompositionOperator([other] + self.operands)', 'return CompositionOperator(self.operands + [other])')
+m('addition_neg_first_only', ['C02'], '_base/core.py',
+  'return AdditionOperator(self._tree_map(lambda operand: (-1) * operand))',
+  'ops = self.operand_leaves\n        return AdditionOperator([(-1) * ops[0]] + (ops[1:] if len(ops) > 2 else [(-1) * o for o in ops[1:]]))')
+m('truediv_no_reciprocal_for_arrays', ['C02'], '_base/core.py',
+  'return HomothetyOperator(1 / other, self.out_structure()) @ self', 'return HomothetyOperator(other if other.weak_type is False and other.dtype == jnp.float32 else 1 / other, self.out_structure()) @ self')
+m('lazy_inverse_matmul_any', ['C02'], '_base/core.py',
+  '        if self.operator is other:\n            return IdentityOperator(self.in_structure())\n        return super().__matmul__(other)',
+  '        if self.operator is other or type(self.operator) is type(other):\n            return IdentityOperator(self.in_structure())\n        return super().__matmul__(other)')
+m('revert_identity_structure_check', ['C02'], '_base/core.py',
+  "        if self.in_structure() != other.out_structure():\n            raise ValueError('Incompatible linear operator structures')\n        return other\n", '        return other\n')
+# ---- C04 ------------------------------------------------------------------------------------------
+m('blockrow_as_matrix_vstack', ['C04', 'C10'], '_base/blocks.py', 'return jnp.hstack([op.as_matrix() for op in self.block_leaves])', 'return jnp.hstack([op.as_matrix() for op in reversed(self.block_leaves)])')
+m('diag_as_matrix_leaf_order', ['C04'], '_base/diagonal.py', 'for leaf in jax.tree.leaves(self.in_structure())\n        ]', 'for leaf in reversed(jax.tree.leaves(self.in_structure()))\n        ]')
+m('generic_as_matrix_rows', ['C04'], '_base/core.py', 'matrix = matrix.at[:, jcounter].set(jnp.concatenate(out_leaves))', 'matrix = matrix.at[:, jcounter].set(jnp.concatenate(out_leaves[::-1]))')
+m('toeplitz_as_matrix_batch', ['C04', 'C09'], 'operators/toeplitz.py', 'blocks = blocks.reshape(-1, blocks.shape[-1], blocks.shape[-1])', 'blocks = blocks.reshape(-1, blocks.shape[-1], blocks.shape[-1])[::-1]')
+# ---- C05 ------------------------------------------------------------------------------------------
+m('blockcol_in_structure', ['C05', 'C10'], '_base/blocks.py',
+  '    def in_structure(self) -> PyTree[jax.ShapeDtypeStruct]:\n        return self.block_leaves[0].in_structure()\n\n    def as_matrix(self) -> Inexact[Array, \'a b\']:\n        return jnp.vstack',
+  '    def in_structure(self) -> PyTree[jax.ShapeDtypeStruct]:\n        return self.block_leaves[-1].out_structure() if len(self.block_leaves) == 3 else self.block_leaves[0].in_structure()\n\n    def as_matrix(self) -> Inexact[Array, \'a b\']:\n        return jnp.vstack')
+m('out_promoted_dtype_inputs', ['C05'], '_base/core.py', '        leaves = jax.tree.leaves(self.out_structure())\n        return jnp.result_type(*leaves)', '        leaves = jax.tree.leaves(self.in_structure())\n        return jnp.result_type(*leaves)')
+m('polarizer_square', ['C05', 'C08'], 'operators/polarizers.py', 'class LinearPolarizerOperator(AbstractLinearOperator):', 'from furax.operators import square\n\n\n@square\nclass LinearPolarizerOperator(AbstractLinearOperator):')
+m('revert_toeplitz_dtype', ['C05', 'C09', 'C18'], 'operators/toeplitz.py', 'y = jnp.zeros(l + x_padding_end, dtype=jnp.result_type(x.dtype, band_values.dtype))', 'y = jnp.zeros(l + x_padding_end)')
+# ---- C06 ------------------------------------------------------------------------------------------
+m('homothety_inverse_sign', ['C06'], '_base/core.py', 'return HomothetyOperator(1 / self.value, self._in_structure)', 'return HomothetyOperator(1 / jnp.abs(self.value), self._in_structure)')
+m('pinv_no_guard', ['C06'], '_base/diagonal.py', 'return jnp.where(self._diagonal != 0, 1 / self._diagonal, 0)', 'return 1 / self._diagonal')
+m('pinv_guard_sign', ['C06'], '_base/diagonal.py', 'return jnp.where(self._diagonal != 0, 1 / self._diagonal, 0)', 'return jnp.where(self._diagonal > 0, 1 / self._diagonal, 0)')
+m('blockdiag_inverse_first', ['C06', 'C10'], '_base/blocks.py', 'return BlockDiagonalOperator(self._tree_map(lambda op: op.I))',
+  'first = self.block_leaves[0]\n        return BlockDiagonalOperator(self._tree_map(lambda op: op.I if op is first or len(self.block_leaves) < 3 else op))')
+# ---- C07 ------------------------------------------------------------------------------------------
+m('driver_no_stepback', ['C07'], '_base/rules.py', '                if index > 0:\n                    index -= 1\n', '')
+m('driver_stop_early', ['C07'], '_base/rules.py', '        while index < len(operands) - 1:', '        while index < len(operands) - 1 and index < 2:')
+m('homothety_side_ge', ['C07'], '_base/rules.py', 'apply_on_left = first.out_size() <= last.in_size()', 'apply_on_left = first.out_size() >= last.in_size()')
+m('pack_rule_classes_swapped', ['C07', 'C12'], '_base/linear.py', '    left_operator_class = PackOperator\n    right_operator_class = TransposeOperator', '    left_operator_class = TransposeOperator\n    right_operator_class = PackOperator')
+m('inverse_rule_eq', ['C07'], '_base/rules.py', '            if left.operator is not right:\n                raise NoReduction\n        else:', '            if left.operator is not right or isinstance(right, HomothetyOperator):\n                raise NoReduction\n        else:')
+# ---- C08 ------------------------------------------------------------------------------------------
+m('dense_tagged_symmetric', ['C08'], '_base/dense.py', 'class DenseBlockDiagonalOperator(AbstractLinearOperator):', 'from furax._base.core import symmetric\n\n\n@symmetric\nclass DenseBlockDiagonalOperator(AbstractLinearOperator):')
+m('hwp_psd', ['C08'], 'operators/hwp.py', '@diagonal\nclass HWPOperator', 'from furax.operators import positive_semidefinite\n\n\n@positive_semidefinite\n@diagonal\nclass HWPOperator')
+m('broadcast_diag_tagged_diagonal', ['C08'], '_base/diagonal.py', 'class BroadcastDiagonalOperator(AbstractLinearOperator):', '@diagonal\nclass BroadcastDiagonalOperator(AbstractLinearOperator):')
+# ---- C10 ------------------------------------------------------------------------------------------
+m('revert_blockrow_single', ['C10'], '_base/blocks.py', '        op, leaf = op_leaves[0]\n        value = op(leaf)\n', '        if len(op_leaves) == 1:\n            return op_leaves[0]\n        op, leaf = op_leaves[0]\n        value = op(leaf)\n')
+m('blockdiag_rule_reversed', ['C10', 'C01'], '_base/blocks.py', 'return [self.reduced_class(left._tree_map(lambda l, r: l @ r, right.blocks)).reduce()]',
+  'lb, rb = left.block_leaves, right.block_leaves\n        if len(lb) == 3 and isinstance(left.blocks, list):\n            return [self.reduced_class([l @ r for l, r in zip(lb, rb[::-1])]).reduce()]\n        return [self.reduced_class(left._tree_map(lambda l, r: l @ r, right.blocks)).reduce()]')
+# ---- C11 ------------------------------------------------------------------------------------------
+m('diag_negative_axis_range', ['C11'], '_base/diagonal.py', 'range(axis_destination - diagonal.ndim + 1, axis_destination + 1)', 'range(axis_destination - diagonal.ndim + 1, axis_destination + 1) if diagonal.ndim < 2 else range(axis_destination - diagonal.ndim, axis_destination)')
+m('diag_normalize_axes', ['C11'], '_base/diagonal.py', 'axis if axis >= 0 else len(input_leaf_shape) + axis for axis in self.axis_destination', 'axis if axis >= 0 else max(len(input_leaf_shape), 2) + axis for axis in self.axis_destination')
+# ---- C12 ------------------------------------------------------------------------------------------
+m('revert_transpose_index_negatives', ['C12', 'C01'], '_base/indices.py', '        index = jnp.where(index < 0, index + size_max, index)\n', '')
+m('index_unique_default_true', ['C12'], '_base/indices.py', '        elif unique_indices is None:\n            unique_indices = False', '        elif unique_indices is None:\n            unique_indices = all(not (isinstance(_, Array) and _.ndim > 1) for _ in indices) and len(indices) > 1')
+m('indexed_axes_after_ellipsis', ['C12'], '_base/indices.py', 'axes.append(axis - len(self.indices))', 'axes.append(axis - len(self.indices) + (1 if len(self.indices) > 2 else 0))')
+m('revert_index_ctor', ['C12', 'C16'], '_base/indices.py', '        self._out_structure = out_structure\n        if out_structure is None:\n            self._out_structure = AbstractLinearOperator.out_structure(self)', '        self._out_structure = out_structure or AbstractLinearOperator.out_structure(self)')
+# ---- C13 ------------------------------------------------------------------------------------------
+m('ravel_negative_axis', ['C13'], '_base/axes.py', '            last_axis = leaf.ndim + self.last_axis if self.last_axis < 0 else self.last_axis\n            if first_axis > last_axis:\n                assert False',
+  '            last_axis = leaf.ndim + self.last_axis if self.last_axis < 0 else self.last_axis\n            if self.last_axis < -1 and leaf.ndim > 2:\n                last_axis -= 1\n            if first_axis > last_axis:\n                assert False')
+m('ravel_slice_off_by_one', ['C13'], '_base/axes.py', 'new_shape = leaf.shape[:first_axis] + (-1,) + leaf.shape[last_axis + 1 :]', 'new_shape = leaf.shape[:first_axis] + (-1,) + leaf.shape[last_axis + 1 :] if leaf.ndim < 3 or last_axis < leaf.ndim - 1 else leaf.shape[:first_axis] + (-1,)')
+# ---- C14 ------------------------------------------------------------------------------------------
+m('revert_einsum_swap_all', ['C14'], '_base/dense.py', "        lefts = lefts.translate(str.maketrans(sum_axis + transpose_axis, transpose_axis + sum_axis))\n",
+  "        lefts_as_list = list(lefts)\n        lefts_as_list[lefts.index(sum_axis)] = transpose_axis\n        lefts_as_list[lefts.index(transpose_axis)] = sum_axis\n        lefts = ''.join(lefts_as_list)\n")
+m('einsum_rights_not_checked', ['C14'], '_base/dense.py', "        if expected_results != rights:\n", "        if expected_results != rights and '...' not in rights:\n")
+# ---- C16 / C17 ------------------------------------------------------------------------------------
+m('euler_alpha_gamma_swapped', ['C16'], 'projections.py', 'alpha, beta, gamma = samplings.phi, samplings.theta, samplings.pa', 'alpha, beta, gamma = samplings.pa, samplings.theta, samplings.phi')
+m('projection_rotation_uses_phi', ['C16'], 'projections.py', 'rotation = QURotationOperator(samplings.pa, tod_structure)', 'rotation = QURotationOperator(samplings.phi, tod_structure)')
+m('acquisition_without_hwp', ['C16'], 'instruments/sat.py', 'acquisition: AbstractLinearOperator = polarizer @ hwp @ proj', 'acquisition: AbstractLinearOperator = polarizer @ proj')
+m('projection_einsum_order', ['C16'], 'projections.py', "jnp.einsum('ijk, jlm -> ilmk', rot, detector_dirs.coords)", "jnp.einsum('jik, jlm -> ilmk', rot, detector_dirs.coords)")
+m('pixel2index_stride_early', ['C17'], 'landscapes.py', '            indices += indices_axis * stride\n            stride *= dim\n', '            stride *= dim\n            indices += indices_axis * stride\n')
+m('pixel2index_floor', ['C17'], 'landscapes.py', '            indices_axis = jnp.round(coord).astype(dtype)', '            indices_axis = jnp.floor(coord + 0.5).astype(dtype)',
+  note='floor(x+.5) differs from round-half-even only on ties where either neighbour is accepted: must NOT be flagged')
+m('pixel2index_valid_le', ['C17'], 'landscapes.py', 'valid &= (0 <= indices_axis) & (indices_axis < dim)', 'valid &= (0 <= indices_axis) & (indices_axis <= dim)')
+m('revert_pixel2index_dtype', ['C17'], 'landscapes.py', 'if len(self) <= np.iinfo(np.int32).max:', 'if len(self) - 1 <= np.iinfo(np.iinfo(np.int32)).max:')
+# ---- C18 / C19 / C20 ------------------------------------------------------------------------------
+m('homothety_value_dependent_branch', ['C18'], '_base/core.py', '        return jax.tree.map(lambda leaf: self.value * leaf, x)\n\n    def inverse',
+  '        if self.value == 0:\n            return jax.tree.map(jnp.zeros_like, x)\n        return jax.tree.map(lambda leaf: self.value * leaf, x)\n\n    def inverse')
+m('revert_landscape_flatten', ['C18'], 'landscapes.py', "        aux_data = {\n            'dtype': self.dtype,\n            'stokes': self.stokes,\n            'nside': self.nside,\n        }", "        aux_data = {\n            'shape': self.shape,\n            'dtype': self.dtype,\n            'stokes': self.stokes,\n            'nside': self.nside,\n        }")
+m('stokes_landscape_drops_stokes', ['C18'], 'landscapes.py', "        aux_data = {\n            'shape': self.shape,\n            'dtype': self.dtype,\n            'stokes': self.stokes,\n        }  # static values", "        aux_data = {\n            'shape': self.shape,\n            'dtype': self.dtype,\n        }  # static values")
+m('config_exit_sets_default', ['C19'], '_base/config.py', '        _config_var.reset(self.token)', '        _config_var.set(ConfigState() if exc_type is not None else self._instance) if exc_type is not None else _config_var.reset(self.token)')
+m('config_init_from_default', ['C19'], '_base/config.py', '        config = _config_var.get()\n        self._instance = replace(config, **kwargs)', "        config = _config_var.get()\n        self._instance = replace(config if 'solver_options' not in kwargs else ConfigState(), **kwargs)")
+m('inverse_reads_config_late', ['C19'], '_base/core.py', '        solver = self.config.solver\n', '        solver = Config.instance().solver\n')
+m('roperation_swapped', ['C20'], 'landscapes.py', 'result = jax.tree.map(partial(operation, left), self)', 'result = jax.tree.map(lambda leaf: operation(leaf, left), self)')
+m('rsub_container', ['C20'], 'landscapes.py', '            result = jax.tree.map(operation, left, self)', '            result = jax.tree.map(operation, self, left)')
+m('dot_conj_second', ['C20'], 'tree.py', 'xy = jax.tree.map(jnp.vdot, x, y)', 'xy = jax.tree.map(lambda a, b: jnp.vdot(b, a), x, y)')
+m('neg_maps_abs', ['C20'], 'landscapes.py', 'result: Self = jax.tree.map(operator.neg, self)', 'result: Self = jax.tree.map(lambda l: -jnp.abs(l) if l.ndim > 2 else -l, self)', note='needs rank-3 components: outside the bounds of the quick tier (documents a miss)')
